@@ -120,7 +120,7 @@ pub proof fn lemma_write_reply<S: Serialize>(tcp: bool, b: Seq<u8>, header: Fram
 
 // R17: nested `fn write_result` of get_reply, hoisted
 //@fn rodbus/src/server/request.rs | Request<'a>::get_reply::write_result | tags=C01
-//@|    requires result is Ok ==> result->Ok_0.ser_pre(), old(writer).is_tcp() ==> header.tx_id is Some,
+//@|    requires result is Ok ==> result->Ok_0.ser_pre() && !result->Ok_0.ser_may_reject(), old(writer).is_tcp() ==> header.tx_id is Some,
 //@|    ensures final(writer).is_tcp() == old(writer).is_tcp(),
 //@|        r is Ok ==> r->Ok_0@.len() <= 260 && (match result {
 //@|            Ok(resp) => frame_ok(old(writer).is_tcp(), r->Ok_0@, r->Ok_0@.len() as int, header, fcv(function), &resp)
